@@ -115,6 +115,26 @@ pub fn process_cpu_ms() -> u64 {
     ticks * 10
 }
 
+/// The kernel thread id of the calling thread (from the /proc/thread-self link).
+pub fn current_tid() -> Option<u32> {
+    std::fs::read_link("/proc/thread-self").ok().and_then(|p| p.file_name().and_then(|n| n.to_str().and_then(|s| s.parse().ok())))
+}
+
+/// CPU time consumed by one thread of this process, in milliseconds.
+pub fn thread_cpu_ms(tid: u32) -> u64 {
+    let stat = match std::fs::read_to_string(format!("/proc/self/task/{}/stat", tid)) {
+        Ok(s) => s,
+        Err(_) => return 0, // the thread has exited
+    };
+    let rest = match stat.rfind(')') {
+        Some(i) => &stat[i + 1..],
+        None => return 0,
+    };
+    let f: Vec<&str> = rest.split_whitespace().collect();
+    let ticks: u64 = f.get(11).and_then(|x| x.parse().ok()).unwrap_or(0) + f.get(12).and_then(|x| x.parse().ok()).unwrap_or(0);
+    ticks * 10
+}
+
 /// Deadlock criterion that does not depend on how loaded the machine is: the work is not
 /// finished, yet the whole process has consumed (almost) no CPU time for `window`: every thread
 /// is blocked, and nobody is left to unblock them.
@@ -122,15 +142,29 @@ pub struct IdleWatch {
     last_cpu: u64,
     since: std::time::Instant,
     window: std::time::Duration,
+    /// the worker threads to watch (the watching thread's own polling must not count as progress);
+    /// empty: the whole process
+    tids: std::sync::Arc<std::sync::Mutex<Vec<u32>>>,
 }
 
 impl IdleWatch {
     pub fn new(window_secs: u64) -> IdleWatch {
-        IdleWatch { last_cpu: process_cpu_ms(), since: std::time::Instant::now(), window: std::time::Duration::from_secs(window_secs) }
+        IdleWatch { last_cpu: process_cpu_ms(), since: std::time::Instant::now(), window: std::time::Duration::from_secs(window_secs), tids: Default::default() }
     }
-    /// Call periodically while waiting. Returns true when the process has been idle for the window.
+    pub fn for_threads(window_secs: u64, tids: std::sync::Arc<std::sync::Mutex<Vec<u32>>>) -> IdleWatch {
+        IdleWatch { last_cpu: 0, since: std::time::Instant::now(), window: std::time::Duration::from_secs(window_secs), tids }
+    }
+    fn cpu(&self) -> u64 {
+        let t = self.tids.lock().map(|t| t.clone()).unwrap_or_default();
+        if t.is_empty() {
+            process_cpu_ms()
+        } else {
+            t.iter().map(|x| thread_cpu_ms(*x)).sum()
+        }
+    }
+    /// Call periodically while waiting. Returns true when the watched threads have been idle for the window.
     pub fn idle(&mut self) -> bool {
-        let cpu = process_cpu_ms();
+        let cpu = self.cpu();
         if cpu > self.last_cpu + 20 {
             self.last_cpu = cpu;
             self.since = std::time::Instant::now();
